@@ -152,6 +152,7 @@ def project(raw_events, scenario, bound=None):
 
     # per invocation: what the caller passed in, for the data checks of delivered events
     invinfo = {}
+    inv_label = {}      # invocation ordinal -> label of its payload
     for ev in raw_events:
         if ev.get("ev") == "InvokeCall":
             invinfo[ev["k"]] = {"ctx": ev.get("ctx", ""), "trace": ev.get("trace", ""), "now": ev.get("nowMs", 0),
@@ -275,10 +276,14 @@ def project(raw_events, scenario, bound=None):
                     mc = re.match(r"^c(\d+)$", pl or "")
                     # p<k>: payload of invocation k; c<k>: that payload cut at the limit (-k); other bytes: -1000000
                     o["pl"] = int(m.group(1)) if m else (0 if pl == "empty" else (-int(mc.group(1)) if mc else -1000000))
+                    if pl != "empty" and pl == inv_label.get(o["inv"]):
+                        # the bytes of this invocation's own payload (a label other than p<k> when the same bytes were
+                        # seen earlier in the run, e.g. a one-byte payload equal to an earlier one-byte response)
+                        o["pl"] = o["inv"]
         elif kind == "InvokeCall":
-            m = re.match(r"^p(\d+)$", ev.get("payload", ""))
+            inv_label[ev["k"]] = ev.get("payload", "")
             o.update(e="InvokeCall", caller=ev["caller"], k=ev["k"],
-                     pl=int(m.group(1)) if m else (0 if ev.get("payload") == "empty" else -1),
+                     pl=0 if ev.get("payload") == "empty" else ev["k"],
                      big=ev.get("size", 0) > MAX_PAYLOAD)
         elif kind == "InvokeRet":
             o.update(e="InvokeRet", caller=ev["caller"], k=ev["k"], out=ev.get("err", ""), body=caller_body(ev.get("body")),
